@@ -7,7 +7,7 @@
    Ok(None) or an error other than a decode / inner error and lists every result; transient o holds for the
    inner error; state_bytes r = the bytes of the frame in progress held in self.state / self.buffer;
    ar_wf r = the representation invariant; fut_ok f r = future f was suspended in reader state r (or is fresh). *)
-From MC Require Import Bytes FrameIo FrameIoFacts AsyncIo AsyncIoFacts.
+From MC Require Import Bytes Monad Decoder Types TypesEnc TypesFacts FrameIo FrameIoFacts AsyncIo AsyncIoFacts FrameIoTypes.
 Local Open Scope N_scope.
 
 (* Every list of payloads, every source script, every caller script: the values returned are exactly the
@@ -97,3 +97,17 @@ Print Assumptions C15_trunc.
 Print Assumptions C15_invalid_len.
 Print Assumptions C15_alloc.
 Print Assumptions C15_no_panic.
+
+(* End to end with the real value codec (Proofs/FrameIoTypes.v): `dec` instantiated with the built-in Decode impls (dec_of c t),
+   the payloads being what the built-in Encode impls write for the values vs (payloads_of): under every source script and every
+   caller script (polls and drops) the values eventually returned are exactly vs, in order, then a clean end; each transient error
+   is reported once. *)
+Theorem C15_values_safe : forall c t vs ps max sched calls c0,
+  ty_ok t = true -> rt_ok t = true -> payloads_of t vs ps ->
+  Forall (fits max) ps -> Forall (fun p => bytes_ok p = true) ps -> Forall atok_ok sched ->
+  exists os r' s',
+    ar_stream value (dec_of c t) calls (areader_new max) (mkasrc (stream_of ps) sched c0) = (os, r', s') /\
+    filter (fun o => negb (transient value o)) os = map OVal vs ++ [OEnd] /\
+    (length (filter (transient value) os) + nerr (a_sched s') = nerr sched)%nat.
+Proof. exact aio_values_safe. Qed.
+Print Assumptions C15_values_safe.
